@@ -541,6 +541,15 @@ recorded:
 	if sequential {
 		regs, njobs := w.cronState()
 		ev["cron"], ev["cron_n"] = regs, njobs
+		if w.Sys != nil {
+			// the System's own counters after the operation (spec/StatsTrace.tla, bin/extras)
+			if st, err := w.Sys.GetStats(quietCtx()); err == nil {
+				ev["stats"] = map[string]interface{}{"calls": st.TotalCalls, "errors": st.ErrorCount, "newlocs": st.NewLocations,
+					"AddFact": st.AddFacts, "RemFact": st.RemFacts, "GetFact": st.GetFacts, "SearchFacts": st.SearchFacts,
+					"AddRule": st.AddRules, "RemRule": st.RemRules, "GetRule": st.GetRules, "SearchRules": st.SearchRules,
+					"ListRules": st.ListRules, "ProcessEvent": st.ProcessEvents}
+			}
+		}
 	}
 	if res.Bad {
 		ev["res"].(map[string]interface{})["c"] = "unintelligible"
